@@ -70,6 +70,33 @@ pub fn twin(f: &F) -> F {
     }
 }
 
+/// The formula with every operator whose meaning depends on self-loops replaced by one that does
+/// not (EX->EF, AX->AG, AF->EF, EG->AG, AU->EU, EW->AW): another formula, in which the attractor
+/// pattern and its contexts survive unchanged, and on which the self-loop-free evaluation variant
+/// must agree with ordinary evaluation.
+pub fn self_loop_free(f: &F) -> F {
+    match f {
+        F::Un(op, a) => {
+            let op2 = match *op {
+                "EX" | "AF" => "EF",
+                "AX" | "EG" => "AG",
+                o => o,
+            };
+            F::un(op2, self_loop_free(a))
+        }
+        F::Bin(op, a, b) => {
+            let op2 = match *op {
+                "AU" => "EU",
+                "EW" => "AW",
+                o => o,
+            };
+            F::bin(op2, self_loop_free(a), self_loop_free(b))
+        }
+        F::Hyb(op, v, d, a) => F::Hyb(op, v.clone(), d.clone(), Box::new(self_loop_free(a))),
+        other => other.clone(),
+    }
+}
+
 /// Does the formula contain one of the two patterns exactly (as the recognisers define them)?
 pub fn count_patterns(f: &F) -> (usize, usize) {
     let mut a = 0;
@@ -208,10 +235,13 @@ fn placed(rng: &mut Rng, world: &World, cfg: &GenCfg, g: &Gen, depth_left: usize
             scope.push(y.clone());
             let inner = placed(rng, world, cfg, g, depth_left - 1, scope);
             scope.pop();
-            let body = match rng.below(3) {
+            let body = match rng.below(5) {
                 0 => inner,
                 1 => F::hyb("@", &y, None, inner),
-                _ => F::hyb("@", &y, None, F::bin("&", inner, F::un(*rng.pick(&["AX", "EF", "EX"]), F::var(&y)))),
+                2 => F::hyb("@", &y, None, F::bin("&", inner, F::un(*rng.pick(&["AX", "EF", "EX"]), F::var(&y)))),
+                // the jump as a *sibling* of the (closed) pattern: `Q{y}: ((@{y}: ...) op pattern)`
+                3 => F::bin(*rng.pick(&["&", "|", "=>"]), F::hyb("@", &y, None, F::un(*rng.pick(&["AX", "EF", "EX"]), F::var(&y))), inner),
+                _ => F::bin(*rng.pick(&["&", "|"]), inner, F::hyb("@", &y, None, F::prop(rng.pick(props)))),
             };
             F::hyb(op, &y, d.as_deref(), body)
         }
@@ -380,6 +410,37 @@ pub fn check(world: &World, sc: &C12) -> Report {
                     rep.violate(oracle, format!("formula {i} `{}` ({tag}): twin evaluates, formula {}", f.render(), other.describe()));
                 }
             }
+        }
+    }
+    // the self-loop-free entry point (model_check_formula_unsafe_ex) on formulae without
+    // self-loop-dependent operators: the attractor shortcut must still equal the generic twin
+    for (i, f) in sc.batch.iter().enumerate() {
+        if !f.is_plain() {
+            continue;
+        }
+        let g = self_loop_free(f);
+        if count_patterns(&g).0 == 0 {
+            continue;
+        }
+        let text = g.render();
+        let empty = env.graph.mk_empty_colored_vertices();
+        let want = isolated(sc.ref_hash_seed.wrapping_add(500 + i as u64), || evalx::nocache_with(&env, &twin(&g), Some(empty.clone())));
+        let got = isolated(sc.alone_hash_seed.wrapping_add(500 + i as u64), || {
+            biodivine_hctl_model_checker::model_checking::model_check_formula_unsafe_ex(&text, &env.graph)
+        });
+        rep.probe("self_loop_free_variant_checked", 1);
+        rep.event(format!("unsafe_ex {i} {} {}", got.ok().map(evalx::set_sig).unwrap_or(got.describe()), want.ok().map(evalx::set_sig).unwrap_or(want.describe())));
+        match (&got, &want) {
+            (Outcome::Ok(a), Outcome::Ok(b)) => {
+                if !evalx::same_set(a, b) {
+                    rep.violate(
+                        "unsafe_ex_pattern_vs_twin",
+                        format!("`{text}` through model_check_formula_unsafe_ex: {} (vs generic evaluation of its twin without self-loops)", evalx::describe_diff(&env, a, b)),
+                    );
+                }
+            }
+            (other, Outcome::Ok(_)) => rep.violate("unsafe_ex_pattern_vs_twin", format!("`{text}` through model_check_formula_unsafe_ex: {}", other.describe())),
+            _ => {}
         }
     }
     run_variants(
